@@ -2,7 +2,7 @@
 from . import enc, framework as F, shapes as S
 
 PREAMBLE = (
-    "From Coq Require Import List NArith ZArith Bool.\n"
+    "From Coq Require Import List NArith ZArith QArith Bool.\n"
     "From Verif Require Import Base.SetList Base.Terms Base.Vocab Paths.Path Paths.PathCheck "
     "Shapes.AST Shapes.Leaf Shapes.Eval Shapes.EvalCheck.\n"
     "Import ListNotations.\nOpen Scope N_scope.\n"
@@ -37,12 +37,17 @@ def model_vs_impl(tag, cases, check_fn="check_validate", shard=120):
             fn = "check_validate_sel %s" % I.terms(c["sel"]["U"])
         mopts = dict(c["opts"])
         mopts.update(c.get("model_opts", {}))
-        body = "%s (%s) (%s) (%s) (%s) (%s)" % (
+        if "render" in c:
+            world, envs = c["render"](I)
+        else:
+            world, envs = "empty_world", S.env_to_coq(I, c["shapes"])
+        body = "%s (%s) (%s) (%s) (%s) (%s) (%s)" % (
             fn,
+            world,
             S.opts_to_coq(I, mopts),
             I.graph(S.class_triples(sgx)),
             I.graph(c["data"]),
-            S.env_to_coq(I, c["shapes"]),
+            envs,
             oc,
         )
         bodies.append(body)
@@ -52,7 +57,7 @@ def model_vs_impl(tag, cases, check_fn="check_validate", shard=120):
 
 
 def show_model(tag, body, check_fn="check_validate"):
-    expr = body.replace(check_fn, "(fun o sg g E _ => validate_impl o sg g E)", 1)
+    expr = body.replace(check_fn, "(fun W o sg g E _ => validate_impl W o sg g E)", 1)
     return F.coq_show(tag, PREAMBLE, expr)
 
 
